@@ -36,20 +36,24 @@ def shared_label_do_inline_comment(src, ctx):
     from fv import real
     L = src.split("\n")
     regions = []
-    for i, a in enumerate(L):
-        ma = _LABEL_DO.match(strip_comment(a))
-        if not ma:
+    # logical lines with their physical spans, from the reader itself (comments ignored)
+    try:
+        items = [it for it in real.make_reader(src, ignore_comments=True, free=True)]
+    except Exception:  # noqa: BLE001
+        return False
+    for a, it in enumerate(items):
+        ma = _LABEL_DO.match(getattr(it, "line", "") or "")
+        if not ma or getattr(it, "label", None) is not None and False:
             continue
         lab = ma.group(2)
         shared = False
-        for j in range(i + 1, len(L)):
-            t = strip_comment(L[j]).strip()
-            mb = _LABEL_DO.match(t)
+        for jt in items[a + 1:]:
+            mb = _LABEL_DO.match(getattr(jt, "line", "") or "")
             if mb and mb.group(2) == lab:
                 shared = True
-            if re.match(r"^%s\b" % lab, t):
+            if str(getattr(jt, "label", "")) == lab:
                 if shared:
-                    regions.append((i, j))
+                    regions.append((it.span[0] - 1, jt.span[1] - 1))
                 break
     if not regions:
         return False
